@@ -144,3 +144,8 @@ Fixpoint dec (t : ty) (b : bytes) : option val :=
   | TDate => match text_to_dt b with Some t => Some (VDate t) | None => None end
   | TUni => match utf8_decode b with Some s => Some (VUni s) | None => None end
   end.
+
+(** ** a connection's sending side over a history of sendBox calls: a refused box writes nothing *)
+Definition wire_of (b : box) : bytes := match serialize b with Some w => w | None => [] end.       (* transport.write(box.serialize()) *)
+Definition accepted (b : box) : bool := match serialize b with Some _ => true | None => false end.
+Definition sent_wire (bs : list box) : bytes := concat (map wire_of bs).
